@@ -369,6 +369,15 @@ def run(ctx) -> None:
     sets = [c for c in db.calls_in(st) if isinstance(c.func, ast.Attribute) and c.func.attr == "set" and "_cache" in src(c.func.value)]
     ok = len(sets) == 2 and "_HMAC_SUFFIX" not in src(sets[0].args[0]) and "_HMAC_SUFFIX" in src(sets[1].args[0]) and sets[0].lineno < sets[1].lineno
     rep.add("C09.R3", f"{st.qname}:two-writes", ok, st.loc(), "payload and digest are written under key and key+suffix (either half missing or stale fails verification on read)" if ok else "set() does not write payload and digest as two keyed entries")
+    # serialisation runs user code (__reduce__, __getstate__): whatever it raises while a key is computed or an entry is
+    # written makes the node uncacheable for that call — it never fails a run that succeeds without a cache
+    for f3 in db.funcs_in("cache"):
+        for c3 in db.calls_in(f3):
+            if (dotted(c3.func) or "") != "pickle.dumps":
+                continue
+            tr3 = next((a for a in ancestors(c3) if isinstance(a, ast.Try) and any(contains(s_, c3) for s_ in a.body)), None)
+            wide = tr3 is not None and any(h.type is None or src(h.type) in ("Exception", "BaseException") for h in tr3.handlers) and not any(isinstance(x, ast.Raise) for h in tr3.handlers for x in ast.walk(h))
+            rep.add("C09.R3", f"{f3.qname}:serialisation-failure-is-a-miss", wide, f"{f3.module.rel}:{c3.lineno}", "any failure of pickle.dumps is caught and treated as 'not cacheable'" if wide else "pickle.dumps is guarded for a few exception types only: an argument or output whose __reduce__/__getstate__ raises anything else (ValueError, RuntimeError...) makes the cached run fail where the uncached run completes")
 
     # ---- R4 ---------------------------------------------------------------------
     sic = db.func("runners._shared.caching.store_in_cache")
